@@ -327,7 +327,24 @@ def s3_positions_misc(ctx):
               'channel_positions.npy is not the concatenation of the per-probe positions in input order')
     # write_misc
     m = repo.lookup_method(cls, 'write_misc')
-    outs = MI(repo, unroll=3, inline_depth=0).run(m, env={m.params[0]: me})
+    # every per-probe matrix takes part: the list of directories handed to the loader is self.subdirs itself, not a filtered copy
+    filtered = None
+    for c in m.calls():
+        if dotted(c.func) == '_load_multiple_files' and len(c.args) >= 2:
+            x = m.expand(c.args[1])
+            if isinstance(x, (ast.ListComp, ast.GeneratorExp)) and x.generators[0].ifs and 'self.subdirs' in unparse(x.generators[0].iter):
+                filtered = (c, x)
+            elif isinstance(x, ast.Call) and dotted(x.func) == 'filter':
+                filtered = (c, x)
+    if filtered is not None:
+        ctx.violated('C12.S3', m, filtered[0], 'the optional matrices are merged over a FILTERED list of probes (`%s`): when a matrix is missing for one probe the blocks of the '
+                     'later probes move to its rows and columns, and the merged matrix no longer has one block per probe at the probe\'s channel / template offset' % unparse(filtered[1])[:90])
+        return
+    try:
+        outs = MI(repo, unroll=3, inline_depth=0).run(m, env={m.params[0]: me})
+    except proto.PathLimit:
+        ctx.undecided('C12.S3', m, 'write_misc: path budget exceeded, block structure of the optional matrices not decided')
+        return
     saved = {}
     for kind, val, st in outs:
         for e in st.trace:
@@ -340,7 +357,13 @@ def s3_positions_misc(ctx):
                   '%s is saved as %s, not block_diag(*per-probe matrices in input order)' % (nm, show(v)[:80] if v is not None else 'nothing'))
     tr = m.nodes(ast.Try)
     okh = bool(tr) and any(h.type is not None and unparse(h.type) in ('FileNotFoundError', 'IOError', 'OSError') and any(isinstance(x, ast.Continue) for x in h.body) for h in tr[0].handlers)
-    ctx.check(okh, 'C12.S3', m, tr[0] if tr else 'write_misc', 'an optional matrix missing in the inputs is skipped', 'a missing optional matrix is not skipped')
+    alt = [i for i in m.nodes(ast.If) if 'exists' in unparse(i.test) and any(isinstance(x, ast.Continue) for x in i.body)]
+    if okh or alt:
+        ctx.holds('C12.S3', m, 'an optional matrix missing in the inputs is skipped', (tr[0] if okh else alt[0].test))
+    elif not tr and not any('exists' in unparse(i.test) for i in m.nodes(ast.If)):
+        ctx.violated('C12.S3', m, 'write_misc', 'a missing optional matrix is not skipped: merging datasets without similar_templates / whitening files raises')
+    else:
+        ctx.undecided('C12.S3', m, 'the skip of missing optional matrices is not in a recognised form', tr[0] if tr else None)
 
 
 def d1_params(ctx):
@@ -368,10 +391,10 @@ def d1_params(ctx):
 
 
 def run(ctx):
-    s1_templates(ctx)
-    s2_template_data(ctx)
-    s3_positions_misc(ctx)
-    d1_params(ctx)
+    ctx.part('C12.S1', s1_templates)
+    ctx.part('C12.S2', s2_template_data)
+    ctx.part('C12.S3', s3_positions_misc)
+    ctx.part('C12.D1', d1_params)
 
 
 LEVEL_TEXT = ('Static walks of the Merger channel/template writers: cumulative column base of the template blocks (recurrence from 0, any number of '
